@@ -11,6 +11,9 @@ package main
 // purity analysis below accepts (they are then merged by callMerged).
 
 import (
+	"fmt"
+	"os"
+	"strings"
 	"go/token"
 	"go/types"
 	"sort"
@@ -123,15 +126,12 @@ func (eng *Engine) pureFn(fn *ssa.Function, depth int) bool {
 	for i := 0; res && i < sig.Results().Len(); i++ {
 		res = scalarType(sig.Results().At(i).Type())
 	}
+	if res && hasCycle(fn) {
+		res = false
+	}
 	if res {
 	outer:
 		for _, b := range fn.Blocks {
-			for _, s := range b.Succs {
-				if s.Index <= b.Index {
-					res = false // back edge
-					break outer
-				}
-			}
 			for _, in := range b.Instrs {
 				if _, isRet := in.(*ssa.Return); isRet {
 					continue
@@ -144,7 +144,29 @@ func (eng *Engine) pureFn(fn *ssa.Function, depth int) bool {
 		}
 	}
 	pureCache.Store(fn, res)
+	if eng.conf.Verbose && !res && strings.Contains(fn.String(), "erif") {
+		fmt.Fprintf(os.Stderr, "[pure] %s: not pure\n", fn)
+	}
 	return res
+}
+
+func hasCycle(fn *ssa.Function) bool {
+	color := make([]int8, len(fn.Blocks))
+	var dfs func(b *ssa.BasicBlock) bool
+	dfs = func(b *ssa.BasicBlock) bool {
+		color[b.Index] = 1
+		for _, s := range b.Succs {
+			if color[s.Index] == 1 {
+				return true
+			}
+			if color[s.Index] == 0 && dfs(s) {
+				return true
+			}
+		}
+		color[b.Index] = 2
+		return false
+	}
+	return dfs(fn.Blocks[0])
 }
 
 func (eng *Engine) pureBlock(b *ssa.BasicBlock) bool {
